@@ -1,7 +1,8 @@
 (* C08 — Long-term credentials: challenge, retry and authenticated delivery (abstract-message level; the RFC 8489 9.2.4 server is Monitors.server_verdict). Statements only; proofs live in the imported files. *)
 From Coq Require Import List NArith Bool.
 Import ListNotations.
-From Rustun Require Import Agent.Rto Agent.Model Agent.Monitors Proofs.AgentInv Proofs.AgentTrace Proofs.AgentMech.
+From Rustun Require Import Agent.Rto Agent.Model Agent.Monitors Proofs.AgentInv Proofs.AgentTrace Proofs.AgentMech
+                           Agent.AbsGlue Proofs.AbsGlueProofs.
 Open Scope N_scope.
 
 (* the first request carries no credential attributes *)
@@ -152,3 +153,16 @@ Theorem C08_outgoing_integrity_is_own :
          is_integ a = true -> a = integ_attr p /\ (lt_st s = Retry438 \/ lt_st s = Subsequent).
 Proof. exact AgentMech.lt_prepare_integrity. Qed.
 Print Assumptions C08_outgoing_integrity_is_own.
+
+(* the byte-level meaning of the nonce flavours of the abstract model: for every nonce number, the bytes the harness
+   vocabulary writes for flavour c are read by the model of nonce_cookie.rs (header, four base64 characters, bits 31 / 30)
+   exactly as Model.harvest1 interprets flavour c (0 not a cookie, 1-4 the four settings of the password-algorithms and
+   anonymity bits, 5-6 a cookie whose feature characters cannot be read) *)
+Theorem C08_cookie_semantics : forall n c, c <= 6 -> nonce_features (nonce_str n c) = model_cookie c.
+Proof. exact AbsGlueProofs.cookie_semantics. Qed.
+Print Assumptions C08_cookie_semantics.
+
+(* and the vocabulary is read back exactly (finite sweep: nonce numbers below 2000, all seven flavours) *)
+Theorem C08_nonce_vocabulary : forall n c, n < 2000 -> c <= 6 -> parse_nonce (nonce_str n c) = (n, c).
+Proof. exact AbsGlueProofs.nonce_roundtrip. Qed.
+Print Assumptions C08_nonce_vocabulary.
